@@ -306,12 +306,30 @@ pub struct Scratch {
     pub dir: PathBuf,
 }
 
-static SCRATCH_CTR: AtomicU64 = AtomicU64::new(0);
+static SCRATCH_SLOTS: AtomicU64 = AtomicU64::new(0);
+
+thread_local! {
+    /// (slot of this thread, number of Scratch objects currently alive on it)
+    static SCRATCH_TL: RefCell<(Option<u64>, u64)> = const { RefCell::new((None, 0)) };
+}
 
 impl Scratch {
+    /// Scratch directories are deliberately *reused*: the n-th live Scratch of a thread always gets the
+    /// same path, so input and output paths recur with different content from case to case (anything that
+    /// caches by path, or trusts what is already on disk, is exercised by every stage).  The directory is
+    /// wiped on creation and removed on drop.
     pub fn new(ctx: &Ctx, tag: &str) -> Scratch {
-        let n = SCRATCH_CTR.fetch_add(1, Ordering::Relaxed);
-        let dir = ctx.work.join(format!("{}-{}-{}", tag, std::process::id(), n));
+        let (slot, depth) = SCRATCH_TL.with(|t| {
+            let mut t = t.borrow_mut();
+            if t.0.is_none() {
+                t.0 = Some(SCRATCH_SLOTS.fetch_add(1, Ordering::Relaxed));
+            }
+            t.1 += 1;
+            (t.0.unwrap(), t.1)
+        });
+        let _ = tag;
+        let dir = ctx.work.join(format!("s-{}-t{}-{}", std::process::id(), slot, depth));
+        let _ = std::fs::remove_dir_all(&dir);
         std::fs::create_dir_all(&dir).expect("scratch dir");
         Scratch { dir }
     }
@@ -333,6 +351,10 @@ impl Scratch {
 impl Drop for Scratch {
     fn drop(&mut self) {
         let _ = std::fs::remove_dir_all(&self.dir);
+        SCRATCH_TL.with(|t| {
+            let mut t = t.borrow_mut();
+            t.1 = t.1.saturating_sub(1);
+        });
     }
 }
 
